@@ -1,6 +1,7 @@
 import Driver.Common
 import CoapVerif.Model.Monitor
 import CoapVerif.Spec.Monitor
+import CoapVerif.Model.Runner
 /-!
 Driver for C18.  Lines: `cfg <periodNs> <maxRetries|-> <t0>`, `recv <t>`, `pong <g> <t>`, `tick <t>`, `datagram <t>`.
 `model`: outputs of the model step (`ping g`, `cancelping g`, `close`, or `none`).
@@ -144,6 +145,30 @@ def judgeLine (s : JState) (line : String) : JState × String :=
 
 end Driver.C18
 
+namespace Driver.C18
+/-- `runner` mode: `rcfg <shared|default>`, `reg <k>`, `fin <k>`, `tick`, `end` -> `calls k1 k2 …` (ascending) or `none` -/
+structure RState where
+  callsAtReg : Bool := false
+  live : List CoapVerif.Model.Runner.Reg := []
+
+def sortNat (l : List Nat) : List Nat := l.mergeSort (· ≤ ·)
+
+def runnerStep (s : RState) (line : String) : RState × String :=
+  let fmt (c : List Nat) : String := if c.isEmpty then "none" else "calls " ++ " ".intercalate ((sortNat c).map toString)
+  match words line with
+  | ["rcfg", "shared"] => ({ callsAtReg := false, live := [] }, "ok")
+  | ["rcfg", "default"] => ({ callsAtReg := true, live := [] }, "ok")
+  | ["reg", k] => match k.toNat? with
+    | some k => let (l, c) := CoapVerif.Model.Runner.step s.callsAtReg s.live (.reg k); ({ s with live := l }, fmt c)
+    | none => (s, "bad-op")
+  | ["fin", k] => match k.toNat? with
+    | some k => let (l, c) := CoapVerif.Model.Runner.step s.callsAtReg s.live (.fin k); ({ s with live := l }, fmt c)
+    | none => (s, "bad-op")
+  | ["tick"] => let (l, c) := CoapVerif.Model.Runner.step s.callsAtReg s.live .tick; ({ s with live := l }, fmt c)
+  | ["end"] => (s, "end")
+  | _ => (s, "bad-op")
+end Driver.C18
+
 def main (args : List String) : IO UInt32 := do
   let stdin ← IO.getStdin
   let stdout ← IO.getStdout
@@ -158,6 +183,11 @@ def main (args : List String) : IO UInt32 := do
       let (s', o) := Driver.C18.judgeLine s l
       stdout.putStrLn o
       pure s'
-  | _ => IO.eprintln "usage: drv_c18 model|judge"; return 2
+  | ["runner"] =>
+    let _ ← Driver.foldLines stdin ({} : Driver.C18.RState) fun s l => do
+      let (s', o) := Driver.C18.runnerStep s l
+      stdout.putStrLn o
+      pure s'
+  | _ => IO.eprintln "usage: drv_c18 model|judge|runner"; return 2
   stdout.flush
   return 0
